@@ -9,6 +9,22 @@ MSG_INV = ["InvIff", "InvValue", "InvNestedDup", "Emit"]
 MAP_INV = ["InvIff", "InvValue", "InvDup", "Emit"]
 
 JOBS = {
+    "C17": [
+        {"module": "MC_Classify", "spec": "Spec", "invariants": ["InvPlain", "InvPriv", "InvPrivRange", "InvNoPrivAssigned", "InvBack", "Emit"],
+         "quick": {"timeout": 300}, "thorough": {"timeout": 1200},
+         "rule": "per registry: every name (finite, exhaustive), every integer of [-70000, 70000] plus 64-bit extremes through "
+                 "from_i64/to_i64/is_private (walked by the harness against the specification's table), and label classification of every "
+                 "assigned value, its neighbours, the private-use boundary and the extremes for both registry label types; "
+                 "distinct_nontrivial counts registry names plus classification inputs"},
+    ],
+    "C16": [
+        {"module": "MC_LabelOrder", "spec": "Spec",
+         "invariants": ["InvLex", "InvCanon", "InvEq", "InvAntisym", "InvTrans", "InvTransCanon", "Emit"],
+         "quick": {"timeout": 300, "workers": 8}, "thorough": {"timeout": 1200},
+         "rule": "all ordered pairs of a 39-label palette (22 integers across every width boundary of both signs, 17 texts across the "
+                 "length boundaries 0/1/2/23/24/255/256 incl. multi-byte) and of four registry-typed label sets; all triples as order "
+                 "laws; non-trivial = the two labels differ"},
+    ],
     "C14": [
         {"module": "MC_Tag", "spec": "Spec", "invariants": ["InvParse", "InvTagged", "InvUntagged", "InvExclusive", "InvToTagged", "Emit"],
          "quick": {"timeout": 300}, "thorough": {"timeout": 1200},
